@@ -96,6 +96,9 @@ pub struct World<const M: usize> {
     pub skip_min_check: bool,
     /// run "thread hop" actions on the calling thread instead (reference run of the hand-over differential)
     pub hop_inline: bool,
+    /// number of hand-overs to another thread so far (part of the state key: code that keeps per-thread state
+    /// would make states that differ only in this have different futures)
+    pub hops: u8,
 }
 
 impl<const M: usize> World<M> {
@@ -119,6 +122,7 @@ impl<const M: usize> World<M> {
             next_err_id: 1,
             skip_min_check: false,
             hop_inline: HOP_INLINE.with(|c| c.get()),
+            hops: 0,
         }
     }
 
@@ -420,9 +424,18 @@ impl<const M: usize> World<M> {
         self.terminal = true;
         let envp = self.env;
         let b = self.bump.take().unwrap();
-        let r = arena_op(envp, self.step, self.arena, &[crate::env::Answer::Refuse], || b.try_alloc_layout(std::alloc::Layout::from_size_align(want, 1).unwrap()).map(|p| p.as_ptr() as usize).ok());
+        // the probing allocation is one the arena initialises itself (a filled byte slice): if it lands on the live
+        // block, that block's bytes are changed by the arena, not through any reference of the caller
+        let r = arena_op(envp, self.step, self.arena, &[crate::env::Answer::Refuse], || b.try_alloc_slice_fill_copy(want, 0x5Au8).map(|p| p.as_ptr() as usize).ok());
         self.bump = Some(b);
         if let Ok(Some(a)) = r {
+            if let Some(l) = self.live.iter().find(|l| l.addr == vaddr).copied() {
+                if self.e().block_containing(self.arena, l.addr, l.size).is_some() {
+                    if let Some(j) = Self::verify_blk(&l) {
+                        self.v(2, "live_block_changed", format!("live_block_changed/after_{what}"), format!("after {what}, a slice of {want} bytes allocated and filled by the arena changed byte {j} of a live block (rel {}, {} bytes)", self.rel(l.addr), l.size));
+                    }
+                }
+            }
             let before = self.viol.len();
             self.accept_block("allocation_after_bad_rewind", a, want, 1, true, None);
             if self.viol.len() > before {
@@ -436,6 +449,7 @@ impl<const M: usize> World<M> {
     pub fn key(&self, p: &Pub) -> u128 {
         let mut h = Hasher128::new();
         h.u(M as u64);
+        h.u(self.hops as u64);
         h.u(match p.limit {
             None => u64::MAX,
             Some(l) => l as u64,
